@@ -66,10 +66,11 @@ Attempt ==
     /\ orphans' = orphans + 1            \* the dial may create a connection (a failed handshake closes it un-listed)
     /\ UNCHANGED <<closed, connected, disconnected, connecting, listed, live>>
 
-\* connectRecover, last region: the dial succeeded
-Add ==
+\* connectRecover, last region: the dial succeeded.  The new connection may be dead already when it is listed (the server
+\* went away right after the handshake): it is listed all the same, its closed callback removes it later.
+Add(alive) ==
     /\ IF closed THEN UNCHANGED cvars                       \* the new connection is closed again, nothing is listed
-       ELSE /\ listed' = listed + 1 /\ live' = live + 1 /\ attempt' = 0
+       ELSE /\ listed' = listed + 1 /\ live' = live + (IF alive THEN 1 ELSE 0) /\ attempt' = 0
             /\ connected' = TRUE /\ disconnected' = FALSE
             /\ orphans' = IF orphans > 0 THEN orphans - 1 ELSE 0     \* the attempt's connection is listed now
             /\ UNCHANGED <<closed, connecting>>
